@@ -607,6 +607,67 @@ def extra_cells():
     return cells
 
 
+# ---------------------------------------------------------------------------------------------- spellings of the dtype argument
+
+DTSPELL_KINDS = ["byteswapped", "native-explicit", "char", "c-alias", "struct-code"]
+_C_ALIASES = {"i64": ["q", "longlong", "l", "int_"], "u64": ["Q", "ulonglong", "L"], "i32": ["i", "intc"], "u32": ["I", "uintc"],
+              "i16": ["h", "short"], "u16": ["H", "ushort"], "i8": ["b", "byte"], "u8": ["B", "ubyte"],
+              "f64": ["d", "double", "float"], "f32": ["f", "single"], "f16": ["e", "half"], "bool": ["?", "bool_"]}
+
+
+def dtspell_cells():
+    return [(fn, sdt, kind, j) for fn in ("astensor", "tensor-nocopy") for sdt in REAL for kind in DTSPELL_KINDS for j in range(3)]
+
+
+def run_dtspell(cell, seed=0):
+    """`astensor(t, dtype=…)` / `tensor(t, dtype=…, copy=False)` for dtype arguments that NumPy considers equal to
+    t's dtype under another spelling (C names, char codes, explicit native byte order) or different from it only in
+    byte order: t itself comes back (graph and gradient intact) exactly when `np.dtype(arg) == t.dtype`; otherwise
+    the result has the requested dtype and the same values."""
+    fn, sdt, kind, j = cell
+    base = np.dtype(NP[sdt])
+    if kind == "byteswapped":
+        arg = [base.newbyteorder("S"), base.newbyteorder("S").str, base.newbyteorder(">" if base.byteorder in "=<|" else "<")][j]
+    elif kind == "native-explicit":
+        arg = [base.newbyteorder("="), base.str, "=" + base.str[1:]][j]
+    elif kind == "char":
+        arg = [base.char, np.dtype(base.char), base.str[1:]][j]
+    elif kind == "c-alias":
+        names = _C_ALIASES.get(sdt, [base.char])
+        arg = names[j % len(names)]
+    else:
+        arg = [base.str[1:], base.name, np.dtype(base.name)][j]
+    try:
+        want = np.dtype(arg)
+    except TypeError:
+        return {"obs": "numpy-rejects", "line": None, "fails": []}
+    floaty = sdt in ("f16", "f32", "f64")
+    a = mg.tensor(np.array([1, 0, 1, 1], dtype=base))
+    t = a * 1 if floaty else (a[...] if sdt == "bool" else +a)  # a tensor that carries a graph
+    if floaty:
+        t.backward()
+        t = a  # a leaf holding a gradient
+    creator, grad = t.creator, t.grad
+    fails = []
+    try:
+        r = mg.astensor(t, dtype=arg) if fn == "astensor" else mg.tensor(t, dtype=arg, copy=False)
+    except Exception as e:  # noqa: BLE001
+        return {"obs": "err " + exc_class(e), "line": None,
+                "fails": [("dtype-spelling", f"{fn}(t[{base.str}], dtype={arg!r}) raised {exc_class(e)}")]}
+    same = want == base
+    if same and r is not t:
+        fails.append(("dtype-spelling", f"{fn}(t[{base.str}], dtype={arg!r}): np.dtype({arg!r}) == t.dtype but t itself is not returned"))
+    if not same and r is t:
+        fails.append(("dtype-spelling", f"{fn}(t[{base.str}], dtype={arg!r}): t itself is returned although its dtype differs from the requested {want.str}"))
+    if r.dtype != want or (not same and r.dtype.byteorder != want.byteorder and want.itemsize > 1):
+        fails.append(("dtype-spelling", f"{fn}(t[{base.str}], dtype={arg!r}): result dtype {r.dtype.str} != requested {want.str}"))
+    if not np.array_equal(np.asarray(r.data, dtype=np.float64), [1, 0, 1, 1]):
+        fails.append(("dtype-spelling", f"{fn}(t[{base.str}], dtype={arg!r}): values changed"))
+    if r is t and (t.creator is not creator or (grad is None) != (t.grad is None)):
+        fails.append(("dtype-spelling", f"{fn}(t, dtype={arg!r}): graph/gradient of the returned tensor not intact"))
+    return {"obs": f"ok same={int(r is t)} {r.dtype.str}", "line": None, "fails": fails[:1]}
+
+
 # ---------------------------------------------------------------------------------------------- creation routines
 
 _LIKE = {"empty_like", "ones_like", "zeros_like", "full_like"}
@@ -765,7 +826,7 @@ def run_creation(cell, seed=0):
 # ---------------------------------------------------------------------------------------------- driver
 
 RUNNERS = {"cons": run_cons, "asarray": run_asarray, "astype": run_astype, "copy": run_copy, "extra": run_extra,
-           "creation": run_creation}
+           "creation": run_creation, "dtspell": run_dtspell}
 
 
 def _work(chunk):
@@ -968,7 +1029,8 @@ def run(ctx: Ctx) -> Outcome:
                 "tensor; distinct by cell.")
     items = [("cons", c) for c in cons_cells()] + [("asarray", c) for c in asarray_cells()] + \
             [("astype", c) for c in astype_cells()] + [("copy", c) for c in copy_cells()] + \
-            [("extra", c) for c in extra_cells()] + [("creation", c) for c in creation_cells()]
+            [("extra", c) for c in extra_cells()] + [("dtspell", c) for c in dtspell_cells()] + \
+            [("creation", c) for c in creation_cells()]
     # the lattice is finite and always enumerated completely; the seed only selects among equivalent spellings
     n = 3000
     chunks = [(ctx.seed, items[i:i + n]) for i in range(0, len(items), n)]
@@ -1006,7 +1068,11 @@ def run(ctx: Ctx) -> Outcome:
         failing.setdefault((fam, tuple(cell)), {})[pred] = _d
     seen_min = set()
     for fam, cell, pred, detail, kindchar in pending:
-        if fam == "extra":
+        if fam == "dtspell":
+            sig, mcell = f"C17|{pred}|{cell[0]}|{cell[2]}|{'float' if cell[1] in ('f16', 'f32', 'f64') else 'int'}", tuple(cell)
+            if any(s_ == sig for s_, _ in seen_min):
+                continue
+        elif fam == "extra":
             sig, mcell = f"C17|{pred}|dtype-kind={kindchar}", tuple(cell)
         else:
             mcell = shrink(fam, cell, pred, failing)
